@@ -31,7 +31,7 @@ def make(rng, funcs):
               ("K_7", "define", -2 ** 63), ("K_8", "define", 2 ** 63), ("K_9", "define", 2 ** 63 - 1),
               ("K_10", "static const unsigned long long", rng.choice([2 ** 64 - 1, 2 ** 63, rng.randint(0, 2 ** 64 - 1)]))]
     pt = rng.choice(list(G.INTS))
-    return {"globals": globs, "consts": consts, "ptype": pt, "funcs": funcs}
+    return {"globals": globs, "consts": consts, "ptype": pt, "funcs": funcs, "rtype": rng.choice(SIGNED)}
 
 
 def _cint(v):
@@ -73,6 +73,11 @@ def render(L):
     e = "enum EE { %s };" % ", ".join("%s = %s" % (n, _cint(v)) for n, v in enums)
     cdef.append(e)
     src.append(e)
+    rc = G.cname(L.get("rtype", "i32"))
+    rdecl = "struct R { %s f1; _Bool f2; };" % rc
+    cdef.append(rdecl + " struct R mkr(%s, _Bool); long long sumr(struct R);" % rc)
+    src.append(rdecl + " struct R mkr(%s a, _Bool b) { struct R r; r.f1 = a; r.f2 = b; return r; }"
+               " long long sumr(struct R r) { return (long long)r.f1 + (long long)r.f2; }" % rc)
     pc = G.cname(L["ptype"])
     cdef.append("struct P { %s x; ...; };" % pc)
     src.append("struct P { char pad; %s x; double y; char tail; };" % pc)
@@ -86,7 +91,7 @@ def layout_probe(L):
 
 
 def names(L):
-    out = list(L["funcs"]) + ["reset_all"]
+    out = list(L["funcs"]) + ["reset_all", "mkr", "sumr"]
     for i, (name, t, v) in enumerate(L["globals"]):
         out += [name, "get_%d" % (i + 1), "set_%d" % (i + 1)]
     out += [n for n, how, v in L["consts"]]
@@ -94,7 +99,8 @@ def names(L):
 
 
 def tla_lib(L):
-    return {"G": [{"t": G.tla_type(t)} for _n, t, _v in L["globals"]],
+    return {"R": {"k": "struct", "tag": "R", "fields": [G.tla_type(L.get("rtype", "i32")), {"k": "bool"}]},
+            "G": [{"t": G.tla_type(t)} for _n, t, _v in L["globals"]],
             "K": [{"k": "int", "neg": v < 0, "mag": G.le_bytes(abs(v))} for _n, _h, v in L["consts"]]}
 
 
